@@ -139,6 +139,14 @@ def check(case):
     if e_ != xe:
         return 'window-end', '%r shows %d..%d, expected end %d' % (
             case, s_, e_, xe)
+    if size >= 1 and not (start > 0 and end > 0) and \
+            len(items) > size + orphan:
+        # a window anchored at one side only (start, or end, or neither)
+        # holds the desired number of elements, plus fewer than 'orphan'
+        # absorbed ones (documentation of size / orphan in DT_In)
+        return 'window-larger-than-size+orphan', \
+            '%r shows %d..%d: %d elements for size=%d orphan=%d' % (
+                case, s_, e_, len(items), size, orphan)
     for i, r in enumerate(rows):
         if bool(r[1]) != (i == 0):
             return 'startflag', '%r row %d sequence-start=%r' % (case, i, r[1])
